@@ -73,7 +73,7 @@ pub fn mk_lifecycle(p: &Value) -> Arc<Mk> {
                         ("event", C::F(_, root)) => {
                             let p = root.join("k.txt");
                             std::fs::write(&p, "v2").unwrap();
-                            notify::stub_inject(cyc, notify::Event { kind: notify::EventKind::Modify(notify::ModifyKind::Data), paths: vec![p] });
+                            notify::stub_inject(cyc, notify::Event { kind: notify::EventKind::Modify(notify::ModifyKind::Data(notify::event::DataChange::Any)), paths: vec![p], attrs: Default::default() });
                         }
                         ("drop_sender", C::M(_, _)) => {
                             // the source's watcher goes away while the cache lives
@@ -111,7 +111,7 @@ pub fn mk_lifecycle(p: &Value) -> Arc<Mk> {
                     // a later filesystem event is what lets the watcher notice the reloader is gone
                     // the late activity is either on an asset file or on a path that maps to no id at all
                     let p = if unnameable_late { tmp_root().join(".cache.d").join("state.tmp.1") } else { tmp_root().join("k.txt") };
-                    notify::stub_inject(cyc, notify::Event { kind: notify::EventKind::Modify(notify::ModifyKind::Data), paths: vec![p] });
+                    notify::stub_inject(cyc, notify::Event { kind: notify::EventKind::Modify(notify::ModifyKind::Data(notify::event::DataChange::Any)), paths: vec![p], attrs: Default::default() });
                     ds::quiesce();
                     ds::log(format!("after-late-event {name} {}", state_tag(&name)));
                     // ... and so must an event for a path that maps to no asset id (a dotted name):
